@@ -37,3 +37,6 @@ def C12_pct_host(rec, failure):
     if impl == '!ref:escape':
         return ar is not None and '%' in ar and not (ab is not None and '%' in ab)
     return False
+
+
+C13_curie_nomatch_empty_prefix = _sig('C13/curie-nomatch-empty-prefix')
